@@ -229,16 +229,24 @@ def patchValueChecks (origin repl : V) : R Unit := do
   | .fn _ => pure ()
   | _ => rej .replKind [.plain]        -- patch.go:70
 
+/-- mocker.go:92-95: an `error` RETURNED by proxy.Func (patch.go:67/70 kind checks, replaceFunc) is turned into
+    `panic(fmt.Sprintf("proxy func definition error: %v", err))` — a string; panics raised below (reflect,
+    SignatureEquals) pass through unchanged -/
+def asPanicString (e : Rej) : Rej :=
+  match e.chain with
+  | .plain :: _ => ⟨e.cls, [.str]⟩
+  | _ => e
+
 /-- mocker.go:90 `applyByFunc`: proxy.Func (func.go:18) … `guard.Apply()` (mocker.go:97) -/
 def applyByFunc (g : G) (tg : Target) (cb : V) (o : OriginV) (repl : Nat) : G × R Unit :=
   match checkTrampolineFunc o with
   | .error e => (g, .error e)
   | .ok tr =>
     match patchValueChecks (.fn tg.sig) cb with
-    | .error e => (g, .error e)
+    | .error e => (g, .error (asPanicString e))
     | .ok _ =>
       match replaceFunc g tg.id tg.fsize repl tr with
-      | (g1, .error e) => (g1, .error e)    -- panics "proxy func definition error: …": no guard, nothing applied
+      | (g1, .error e) => (g1, .error (asPanicString e))    -- no guard, nothing applied
       | (g1, .ok _) => (guardApply g1 tg.id, pure ())
 
 /-! ## arg/value.go -/
@@ -680,8 +688,8 @@ def lookupCheck (name : String) (found : Bool) : R Unit :=
   if name = "" then rStr .methodEmpty else if !found then rStr .methodNotFound else pure ()
 
 /-- one configuration call on a function (`isM = false`, mocker.go:506-600) or method (`isM = true`, mocker.go:243-340)
-    mocker.  The order inside the first-call paths is the code's: CreateWhen → `m.whens(when)` (which sets `m.when`) →
-    [`m.when.Returns(values...)`] → `m.doApply(m.imp)`. -/
+    mocker.  The order inside the first-call paths is the code's: CreateWhen → [`when.Returns(values...)`, which may
+    panic] → `m.whens(when)` (which sets `m.when`) → `m.doApply(m.imp)`. -/
 def seqStep (tg : Target) (isM : Bool) (repl : Nat) (ms : MS) : Step → MS × R Unit
   | .again => (ms, pure ())
   | .asFn _ => (ms, pure ())
@@ -696,7 +704,7 @@ def seqStep (tg : Target) (isM : Bool) (repl : Nat) (ms : MS) : Step → MS × R
       let (w1, r) := whenStep tg.sig isM w st
       ({ ms with when := some w1 }, r)
     | none =>
-      -- first call: build the When, remember it, [fill it], apply
+      -- first call: build the When, [fill it], remember it, apply
       let built : R WS := match st with
         | .ret vals => createWS tg.sig none true (firstReturnValues vals) isM
         | .when_ args hit => createWS tg.sig args hit none isM
@@ -709,7 +717,7 @@ def seqStep (tg : Target) (isM : Bool) (repl : Nat) (ms : MS) : Step → MS × R
           | .returns gs => wReturns tg.sig w0 gs 0
           | _ => (w0, pure ())
         match filled with
-        | (_, .error e) => (ms, .error e)     -- validation happens before m.whens (fix dead80f): the mocker keeps no unapplied When
+        | (_, .error e) => (ms, .error e)     -- the value lists are validated before `m.whens`: nothing is kept
         | (w1, .ok _) =>
           match applyByFunc ms.g tg (.fn tg.sig) .none repl with
           | (g1, .error e) => ({ ms with g := g1, when := some w1 }, .error e)
@@ -787,5 +795,95 @@ def runIfaceAll (m : Sig) : IS → List Step → IS × IS × List (R Unit)
     let (s1, r) := ifaceSeqStep m s st
     let (a, b, rs) := runIfaceAll m s1 rest
     (a, b, r :: rs)
+
+/-! ## error values on the Go side (erro/traceable.go, erro/traceable_base.go, erro/illegal_param.go) and the probe's walk
+
+A Go error value is a node with a type and, for the types that can hold one, a cause.  `ErrT` names the node types. -/
+
+inductive GoErr
+  | leaf (t : ErrT)                    -- no cause stored (or a type that cannot store one)
+  | wrap (t : ErrT) (cause : GoErr)    -- `cause` field of *TraceableError / *IllegalParam, or the `%w` operand of fmt.Errorf
+  deriving Repr, Inhabited
+
+def GoErr.tag : GoErr → ErrT | .leaf t => t | .wrap t _ => t
+
+/-- erro/traceable.go:16 `Cause(err)`: `if c, ok := err.(Traceable); ok { return c.Cause() }; return nil`.
+    `Traceable` demands `Cause()` AND `StackTrace()`: only `*TraceableError` (traceable_base.go:39,43) has both;
+    `*IllegalParam` (illegal_param.go:26) has `Cause()` only. -/
+def erroCause : GoErr → Option GoErr
+  | .wrap .traceable c => some c
+  | _ => none
+
+/-- the walk `for c := err; c != nil; c = erro.Cause(c) { last = c }` of the probe (probe_test.go zchain) and of
+    erro/traceable.go:26 `CauseBy`: type of the last non-nil node -/
+def erroWalk : GoErr → ErrT
+  | .leaf t => t
+  | .wrap t c => if t = .traceable then erroWalk c else t
+
+/-- does a node of this type expose its cause to the probe's chain listing: through a `Cause() error` method
+    (`*TraceableError`, `*IllegalParam`) or through `errors.Unwrap` (`*fmt.wrapError`, tagged `plain`) -/
+def exposesCause : ErrT → Bool
+  | .traceable | .illegalParam | .plain => true
+  | _ => false
+
+/-- probe_test.go `zchain`: `parts = append(parts, znode(c)); if x, ok := c.(interface{ Cause() error }); ok { c = x.Cause() } else { c = errors.Unwrap(c) }` -/
+def probeChain : GoErr → List ErrT
+  | .leaf t => [t]
+  | .wrap t c => if exposesCause t then t :: probeChain c else [t]
+
+/-- build the Go value a model chain stands for (outermost first) -/
+def toGo : List ErrT → Option GoErr
+  | [] => none
+  | [t] => some (.leaf t)
+  | t :: rest => (toGo rest).map (.wrap t)
+
+/-- a chain is well formed when every element but the last is of a type that stores a cause (so each wrapper's cause IS
+    the next element) and the last one is not a bare wrapper -/
+def wellFormed : List ErrT → Bool
+  | [] => false
+  | [t] => t != .traceable
+  | t :: rest => exposesCause t && wellFormed rest
+
+/-! ### the typed cause the model assigns to every mistake class -/
+
+/-- classes whose producers `panic` with a STRING (no error value exists): SignatureEquals (signature.go:11-29),
+    matcher.go:28/58 "Return Value (…) error", matcher.go:107 "Call When(…) error", matcher.go:164 "create param match fail",
+    mocker.go:200/207 and iface.go:69/82 method name, func.go:119 via mocker.go:94, value.go:64, iface.go:129, builder.go:152 -/
+def isStrCls : Cls → Bool
+  | .sigArgsLen | .sigRetsLen | .sigArgSize _ | .sigRetSize _ | .retvalCount | .retvalType | .whenCount | .whenType
+  | .inCount | .inType | .methodEmpty | .methodNotFound | .trampKind | .ictxReturn | .ifaceNoAs | .nameEmpty | .funcDefEmpty => true
+  | _ => false
+
+/-- classes that exist as `error` values inside internal/patch and reach the user as the panic string of mocker.go:94 -/
+def isPatchCls : Cls → Bool
+  | .funcSmall | .trampSmall | .alreadyPatched | .targetKind | .replKind => true
+  | _ => false
+
+def typedEnd (c : Cls) (e : ErrT) : Bool :=
+  if isStrCls c then e == .str
+  else if isPatchCls c then e == .plain || e == .str
+  else match c, e with
+    | .reflect, .reflect => true
+    | .runtime, .runtime => true
+    | .argsNotMatch, .argsNotMatch _ _ => true
+    | .returnsNotMatch, .returnsNotMatch _ _ => true
+    | .illegalParam, .illegalParam => true
+    | .illegalParamType, .illegalParamType => true
+    | .symbolNotFound, .str => true        -- mocker.go:79 panic(fmt.Sprintf(..))
+    | .symbolNotFound, .plain => true      -- mocker.go:414 panic(err)
+    | _, _ => false
+
+def isTypedInner : ErrT → Bool
+  | .argsNotMatch _ _ | .returnsNotMatch _ _ | .illegalParamType => true
+  | _ => false
+
+/-- the chain shapes the model produces, per class -/
+def Rej.shape (r : Rej) : Bool :=
+  match r.chain with
+  | [e] => typedEnd r.cls e
+  | [.plain, .plain] => r.cls == .alreadyPatched
+  | [.traceable, .illegalParamType] => r.cls == .illegalParamType
+  | [.traceable, .illegalParam, c] => r.cls == .illegalParam && isTypedInner c
+  | _ => false
 
 end Reject
